@@ -575,6 +575,41 @@ def l6(ctx):
                 ok = False
     obs.append(Ob('L6', 'returns-thread-connection', ok, 'the getter returns something other than the thread\'s stored '
                   'connection', con.loc()))
+    # __init__ works with its own (zero) timeout; the connection it leaves behind must carry the configured one:
+    # either it is closed so that the next use reconnects with self._timeout, or its busy timeout is set to
+    # timeout * 1000 (PRAGMA busy_timeout takes milliseconds)
+    ok, wit, n = True, None, 0
+    for p in ctx.paths(init, 'plain'):
+        if p.kind not in ('return', 'next'):
+            continue
+        sets = [e for e in p.trace if e.kind == 'SETATTR' and e.d['attr'] == '_timeout' and e.d['base'].k == 'self']
+        if not sets:
+            continue
+        n += 1
+        last = sets[-1]
+        final_ok = last.d['val'].k == 'param' and last.d['val'].a[0] == 'timeout'
+        if len(sets) > 1 and any(x.d['val'] != last.d['val'] for x in sets[:-1]):
+            # statements were executed under another timeout: that connection must not survive
+            sql_before = [e for e in p.trace[:last.seq] if e.kind in ('SQL', 'CONGET')]
+            closes = [e for e in call_events(p.trace, 'Cache.close') if (not sql_before or e.seq > sql_before[-1].seq)]
+            closed = any(e.seq < last.seq or not [x for x in p.trace[last.seq:e.seq] if x.kind == 'SQL'] for e in closes)
+            pragma_ms = False
+            for e in p.trace:
+                st = e.d.get('stmt') if e.kind == 'SQL' else None
+                if st is not None and st.kind in ('pragma', 'pragma_set') and (st.pragma or '').lower() == 'busy_timeout':
+                    vals = list(values_in(e.d.get('stmtv'))) if e.d.get('stmtv') is not None else []
+                    pragma_ms = any(x.k == 'term' and x.a[0] == 'Mult' and any(y.is_const and y.val == 1000 for y in x.a[1])
+                                    and any(y.k == 'param' and y.a[0] == 'timeout' for z in x.a[1] for y in values_in(z))
+                                    for x in vals)
+            if not (closed or pragma_ms):
+                final_ok = False
+        if not final_ok:
+            ok, wit = False, fmt_trace(p.trace[-40:])
+    obs.append(Ob('L6', 'init-leaves-connection-with-configured-timeout', ok and n > 0,
+                  'Cache.__init__ runs its statements under its own timeout and then neither closes that connection '
+                  '(so that the next use reconnects with timeout=self._timeout) nor sets its busy timeout to '
+                  'timeout * 1000 ms: the constructing thread keeps a connection with the wrong lock timeout and raises '
+                  'Timeout almost immediately (or waits far too long)', init.loc(), wit))
     # close(): closes and forgets the thread's connection
     close = ctx.method('Cache', 'close')
     ok = False
